@@ -3,7 +3,7 @@
    nat / N / Z / positive stay the extracted inductives.  No Extract Constant. *)
 From Coq Require Import Extraction ExtrOcamlBasic ZArith NArith List.
 From Selfies Require Import Base Generated Lex Atoms Grammar Compat Decoder.
-From Selfies Require Import IndexSpec WfSpec.
+From Selfies Require Import IndexSpec WfSpec EncUtils.
 Extraction Language OCaml.
 Set Extraction AccessOpaque.
 Extraction "model.ml"
@@ -15,4 +15,5 @@ Extraction "model.ml"
   next_atom_state next_branch_state next_ring_state
   decoder decode_graph
   doc_digit doc_value
-  render tokens symbols wf_parse.
+  render tokens symbols wf_parse
+  selfies_to_encoding encoding_to_selfies batch_selfies_to_flat_hot batch_flat_hot_to_selfies.
